@@ -123,6 +123,11 @@ impl ChunkSerializer {
             iteration = iteration + 1;
         }
 
+        if slices.is_empty() {
+            // A message without a payload still needs one (header only) chunk
+            slices.push(&message.data[0..0]);
+        }
+
         for (idx, slice) in slices.into_iter().enumerate() {
             self.add_chunk(
                 &mut bytes,
